@@ -322,4 +322,28 @@ CHECKS = {
             "cached nil replies (missing keys) carry no tag and are judged through the accessor consistency only",
         ],
     },
+    "C02": {
+        "level": "exploration",
+        "engine": "microsched",
+        "rule": ("unit part (queue-unit): newRing / newFlowBuffer with 2, 4 or 8 slots (ring counters optionally started just below 2^32 so the slot index wraps), "
+                 "1-12 putters (up to 2*slots+2) each doing 1-4 PutOne / PutMulti(2-4) of uniquely tagged commands, one writer loop and one reader loop using "
+                 "the queue exactly as pipe._backgroundWrite/_backgroundRead do; every lock acquisition, channel operation and wake-up of ring.go / flowbuffer.go "
+                 "is a yield decided by the seeded scheduler and slot locks are scheduler-granted; oracle: every command reaches the writer exactly once, "
+                 "per-putter order is kept, the reader is always handed the oldest written entry, each result reaches the putter that filled the slot, and the "
+                 "run never ends with a putter waiting (deadlock). real part (queue-real): the real pipe over a simulated connection with the same fine yields, "
+                 "more callers than slots, write buffers 32 B..default, C01 reply oracle and hang detection; "
+                 "non-trivial = at least two putters/callers; distinct = distinct event-log hash"),
+        "parts": [
+            {"module": "rueidis", "scenario": "queue-unit", "quick": 16000, "thorough": 1500000},
+            {"module": "rueidis", "scenario": "queue-real", "quick": 4000, "thorough": 300000},
+            {"module": "rueidis", "scenario": "queue-real", "variant": "no-partial-flush", "quick": 2000, "thorough": 100000},
+        ],
+        "expected_probes": ["more-putters-than-slots", "slot-index-wrapped", "more-callers-than-slots"],
+        "components": {"real": "ring.go and flowbuffer.go unmodified (unit part); all of package rueidis (real part)",
+                       "stubs": {"writer/reader loops (unit part)": "harness loops following pipe's calling protocol", "slot locks": "scheduler-granted lockers through the verif NewLocker seam", "network/server (real part)": "simnet + fakeredis"}},
+        "assumptions": [
+            "no real-time order is demanded between different putters: a putter stalled between taking its ticket and locking its slot may be overtaken on that slot one lap later; queue order is slot order",
+            "code between two yield points touches only goroutine-local state or state protected by a scheduler-granted lock",
+        ],
+    },
 }
